@@ -494,8 +494,13 @@ pub fn compare_signature(m: &Model, ns: &Option<String>, path: &[String], obs: &
         }
         let r = m.resolve(ns, loc, path).ok()?;
         let s = signature(&r);
-        match lit_type(&r) {
+        // a float literal keeps its type however it is displayed ("20.0" is shown as "20")
+        let raw_float = matches!(m.get_raw(ns, loc, path), Some(vmodel::model::MV::Val(Val::Float(_))));
+        match if raw_float { Some("float") } else { lit_type(&r) } {
             Some(t) if s.is_empty() => {
+                // the JSON5 front-end reads every integer as signed (the statement lets the numeric literal
+                // type differ between front-ends)
+                let t = if t == "unsigned" && build_format() == Format::Json5 { "signed" } else { t };
                 lit_types.insert(t);
             }
             _ => all_lit = false,
